@@ -240,6 +240,10 @@ def rule_cl_stdout(cx, rep, port='py'):
         main_prints = [c for c in walk_no_nested(m) if isinstance(c, ast.Call) and dotted(c.func) == 'print']
         okv = all(isinstance(getattr(_stmt(c), 'parent', None), ast.If) and node_text(_stmt(c).parent.test) == 'args.version' for c in main_prints)
         rep.decide(okv, entry + ' prints', main_prints[0] if main_prints else m, 'the only print in the entry point is --version', '{} prints to stdout outside --version'.format(entry))
+        # a warning / error shown by the entry point itself before interactive mode was chosen goes to the non-interactive channel
+        wrong = [c for c in walk_no_nested(m) if isinstance(c, ast.Call) and dotted(c.func) in ('show_warning', 'show_error') and (any(k.arg == 'is_interactive' and is_true(k.value) for k in c.keywords) or (len(c.args) >= 2 and is_true(c.args[-1])))]
+        if wrong:
+            rep.violated(entry + ' channel', wrong[0], '{}() shows a message with is_interactive=True on the path every run takes: in a non-interactive run the line is printed to stdout, in front of the result table'.format(entry))
         shows = [c for c in walk_no_nested(m) if isinstance(c, ast.Call) and dotted(c.func) == 'show_error']
         okc = all(any(k.arg == 'is_interactive' and is_false(k.value) for k in c.keywords) for c in shows)
         rep.decide(okc, entry + ' argument errors', shows[0] if shows else m, 'argument errors go to stderr', '{} reports an argument error on stdout'.format(entry))
